@@ -146,6 +146,10 @@ def prove(name, c, label=None):
 lemma = prove
 
 
+def rewrite(name, term, closed):
+    prove(name, eq(term, closed))
+
+
 def cover(name):
     pass
 
